@@ -31,6 +31,13 @@ class RandomGeneratorNode(Node):
         bit_generator_cls = gettype(
             "numpy.random", bit_generator_state["bit_generator"]
         )
+        if not (
+            isinstance(bit_generator_cls, type)
+            and issubclass(bit_generator_cls, np.random.BitGenerator)
+        ):
+            raise TypeError(
+                f"{bit_generator_state['bit_generator']} is not a numpy bit generator"
+            )
         bit_generator = bit_generator_cls()
         bit_generator.state = bit_generator_state
 
